@@ -20,7 +20,7 @@ pub fn oracle(tr: &Transition) -> Vec<Violation> {
     }
     let site = match &tr.ev.op {
         Op::Backup(_) => "after-backup",
-        Op::Crashed(_) => "after-interrupted-backup",
+        Op::Crashed(..) => "after-interrupted-backup",
         Op::Delete(_) => "after-delete",
         Op::Gc => "after-gc",
         Op::Garbage(_) => "after-garbage",
